@@ -99,7 +99,10 @@ class ExecMixin:
                 self.assume_elem_types(st, sv, TypeSpec(et))
             st.locals[a] = sv
         if args.kwarg:
-            raise Unsupported("**kwargs parameter")
+            # **kwargs: an arbitrary dict (its contents are never inspected by the functions under contract)
+            t = z3.Const(f"arg.{args.kwarg.arg}", Val)
+            st.assume(smt.is_ref(t), smt.CLS[Val.r(t)] == smt.CLS_DICT, Val.r(t) < st.alloc)
+            st.locals[args.kwarg.arg] = SV(t, "dict")
         # free variables of nested functions: declared through contract.types with a leading '^'
         for k, ty in self.con.types.items():
             if k.startswith("^"):
